@@ -34,7 +34,8 @@ def apply_edit(root: Path, edit):
         return f'stale: `{old[:50]}` occurs {s.count(old)}x in {rel} (expected {cnt})'
     s = s.replace(old, new)
     try:
-        ast.parse(s)
+        if rel.endswith('.py'):
+            ast.parse(s)
     except SyntaxError as e:
         return f'edit does not parse: {e}'
     p.write_text(s)
